@@ -58,12 +58,25 @@ pub fn bits_from_image(img: &[u8], words: usize) -> Option<Vec<u64>> {
     Some((0..words).map(|w| u64::from_le_bytes(img[32 + 8 * w..40 + 8 * w].try_into().unwrap())).collect())
 }
 
+/// variable-length items: their Hash impls feed the hasher in several writes of assorted sizes
+fn var_bytes(i: u64, salt: u64) -> Vec<u8> {
+    let len = (crate::rt::mix(&[i, salt]) % 101) as usize;
+    (0..len).map(|j| (i.wrapping_mul(31).wrapping_add(j as u64 * 7) ^ salt) as u8).collect()
+}
+fn var_string(i: u64, salt: u64) -> String {
+    let len = (crate::rt::mix(&[i, salt, 1]) % 71) as usize;
+    (0..len).map(|j| (b'a' + ((i + j as u64 * 3 + salt) % 26) as u8) as char).collect()
+}
+
 fn item(i: u64, salt: u64, kind: u64) -> Vec<u8> {
     // returns the hashed byte sequence; the same item is passed to the filter by the caller
     match kind {
         0 => rt::hashed_bytes(&(salt, i)),
         1 => rt::hashed_bytes(&format!("bloom-{}-{}", salt % 1000, i).as_str()),
-        _ => rt::hashed_bytes(&(i.wrapping_mul(0x9E3779B97F4A7C15) ^ salt)),
+        2 => rt::hashed_bytes(&(i.wrapping_mul(0x9E3779B97F4A7C15) ^ salt)),
+        3 => rt::hashed_bytes(&var_bytes(i, salt)),
+        4 => rt::hashed_bytes(&var_string(i, salt)),
+        _ => rt::hashed_bytes(&(salt, i, !i, salt ^ i)),
     }
 }
 
@@ -71,21 +84,30 @@ fn f_insert(f: &mut BloomFilter, i: u64, salt: u64, kind: u64) {
     match kind {
         0 => f.insert((salt, i)),
         1 => f.insert(format!("bloom-{}-{}", salt % 1000, i).as_str()),
-        _ => f.insert(i.wrapping_mul(0x9E3779B97F4A7C15) ^ salt),
+        2 => f.insert(i.wrapping_mul(0x9E3779B97F4A7C15) ^ salt),
+        3 => f.insert(var_bytes(i, salt)),
+        4 => f.insert(var_string(i, salt)),
+        _ => f.insert((salt, i, !i, salt ^ i)),
     }
 }
 fn f_contains(f: &BloomFilter, i: u64, salt: u64, kind: u64) -> bool {
     match kind {
         0 => f.contains(&(salt, i)),
         1 => f.contains(&format!("bloom-{}-{}", salt % 1000, i).as_str()),
-        _ => f.contains(&(i.wrapping_mul(0x9E3779B97F4A7C15) ^ salt)),
+        2 => f.contains(&(i.wrapping_mul(0x9E3779B97F4A7C15) ^ salt)),
+        3 => f.contains(&var_bytes(i, salt)),
+        4 => f.contains(&var_string(i, salt)),
+        _ => f.contains(&(salt, i, !i, salt ^ i)),
     }
 }
 fn f_contains_and_insert(f: &mut BloomFilter, i: u64, salt: u64, kind: u64) -> bool {
     match kind {
         0 => f.contains_and_insert(&(salt, i)),
         1 => f.contains_and_insert(&format!("bloom-{}-{}", salt % 1000, i).as_str()),
-        _ => f.contains_and_insert(&(i.wrapping_mul(0x9E3779B97F4A7C15) ^ salt)),
+        2 => f.contains_and_insert(&(i.wrapping_mul(0x9E3779B97F4A7C15) ^ salt)),
+        3 => f.contains_and_insert(&var_bytes(i, salt)),
+        4 => f.contains_and_insert(&var_string(i, salt)),
+        _ => f.contains_and_insert(&(salt, i, !i, salt ^ i)),
     }
 }
 
@@ -149,7 +171,8 @@ fn history_case(ctx: &mut Ctx, case: &Json) {
     let num_hashes = case.u64("num_hashes").unwrap_or(3) as u16;
     let n_ops = case.u64("n_ops").unwrap_or(100) as usize;
     let seed = *rng.pick(&[9001u64, 0, 1, u64::MAX, 0x1234_5678_9abc_def0]);
-    let kind = rng.below(3);
+    let kind = rng.below(6);
+    ctx.cover(&format!("item_kind_{}", kind));
     let salt = rng.next_u64();
     let domain = rng.range(2, (num_bits * 2).clamp(4, 5000));
     let mut a = BloomFilterBuilder::with_size(num_bits, num_hashes).seed(seed).build();
